@@ -91,7 +91,7 @@ fn externs_c14(r: &mut Rng, two: bool) -> Vec<ExternSymbol> {
 fn knobs(two: bool) -> Knobs {
     Knobs {
         subs: (1, 3), blocks: (1, 5), w_branch: 16, w_cbranch: 26, w_cbranch_ret: 8, w_return: 16, w_ext_call: 22, w_int_call: 18,
-        w_callind: 5, w_branchind: 4, w_nojump: 1, w_callother: 1, w_single_cbranch: 1, p_no_ret: 8, p_empty_sub: 3, p_forward: 65, p_chain: 0, p_cbranch_ind: (1, 8), min_hints: 0,
+        w_callind: 5, w_branchind: 4, w_nojump: 1, w_callother: 1, w_single_cbranch: 1, p_no_ret: 8, p_empty_sub: 3, p_forward: 65, p_chain: 0, p_cbranch_ind: (1, 8), min_hints: 0, p_cond_call: (0, 1), shuffle_blocks: false,
         sub_cconvs: if two { vec!["".to_string(), "__fastalt".to_string()] } else { vec!["".to_string()] },
     }
 }
